@@ -153,8 +153,11 @@ def validate_records(module, trace_file, *, name, wd, cfg=None, timeout=3600, xm
     r = tlc(module, cfg, name=name, wd=wd, workers=1, env={"TRACE": trace_file}, deque=True, timeout=timeout, xmx=xmx)
     if not r.ok:
         raise ToolError(f"trace validation of {trace_file} against {module} failed to run:\n{r.error}")
-    rej = [int(x) for x in re.findall(r'<<"REJECT", (\d+)>>', r.text)]
-    return sorted(set(rej)), r
+    rej = {}
+    for m in re.finditer(r'<<"REJECT", (\d+)(?:, "((?:[^"\\]|\\.)*)")?>>', r.text):
+        rej[int(m.group(1))] = m.group(2) or ""
+    r.why = rej
+    return sorted(rej), r
 
 
 class Check:
